@@ -176,6 +176,7 @@ func init() {
 	}
 	reg("(*sync.Mutex).Lock", func(e *Engine, args []Value, fn *ssa.Function) Value {
 		l := lockOf(e, args[0].(Ptr).Obj)
+		e.yield()
 		e.block(func() bool { return !l.w && l.r == 0 }, "sync.Mutex.Lock")
 		l.w = true
 		e.noteLock(args[0].(Ptr).Obj, true)
@@ -196,6 +197,7 @@ func init() {
 		}
 		l.w = false
 		e.noteLock(args[0].(Ptr).Obj, false)
+		e.yield()
 		return nil
 	})
 	reg("(*sync.RWMutex).Lock", func(e *Engine, args []Value, fn *ssa.Function) Value {
